@@ -193,9 +193,19 @@ def norm_inst(inst):
         q["joinports"] = sorted((q.get("joins") or {}).keys())
         q.setdefault("cores", 1)
         if q["kind"] == "concat": q["item"] = path_id(q.get("arg", ""))      # the one file the component emits
-        if q["kind"] == "splitter":      # only directly behind a file source (one-line files): lines // n full parts and the trailing (possibly empty) one
-            n = int(q.get("arg") or 1)
-            q["nparts"] = 1 // n + 1
+        if q["kind"] == "splitter":      # lines // n full parts and the trailing (possibly empty) one; the line count of what arrives is known behind
+            n = int(q.get("arg") or 1)   # a file source (one line) and behind a task of the harness whose inputs all come from sources (BEGIN, one line per
+            up = [e["from"].rsplit(".", 1)[0] for e in i.get("edges", []) if e["to"] == q["name"] + ".file"]      # input, one per parameter, END)
+            byname = {x["name"]: x for x in i["procs"]}
+            def nlines(u):
+                u = byname[u]
+                if u["kind"] == "src": return 1
+                assert u["kind"] == "cmd" and not u.get("arg"), "splitter behind %s: line count unknown" % u["name"]
+                ins = [e["from"].rsplit(".", 1)[0] for e in i.get("edges", []) if e["to"].rsplit(".", 1)[0] == u["name"]]
+                return 2 + sum(nlines(x) for x in ins) + len(u.get("params") or [])
+            counts = {nlines(u) for u in up} or {1}
+            assert len(counts) == 1, "splitter fed by files of different line counts"
+            q["nparts"] = counts.pop() // n + 1
         q["ins"] = sorted(q["ins"]); q["params"] = sorted(q["params"])
         procs.append(q)
     i["procs"] = procs
